@@ -51,6 +51,7 @@ type tcase struct {
 	URL         string
 	Headers     []kv
 	Form        []kv
+	Multipart   bool
 	Body        *string
 	CType       string
 	Params      json.RawMessage
@@ -605,7 +606,7 @@ func schemeOK(s string, c creds) (bool, string) {
 			return true, "basic:" + strings.SplitN(c.basic, ":", 2)[0]
 		}
 	case "oauth":
-		have := map[string]string{"t-read": "read", "t-rw": "read,write"}[c.oauth]
+		have := map[string]string{"t-read": "read", "t-rw": "read,write", "t-all": "read,write,admin"}[c.oauth]
 		if have == "" {
 			return false, ""
 		}
@@ -779,11 +780,15 @@ func main() {
 						c.basic = "alice:wonderland"
 					case "oauth":
 						c.oauth = "t-rw"
+						if strings.Contains(s, "admin") {
+							c.oauth = "t-all" // the only token that holds the scope the scheme does not declare
+						}
 					}
 				}
 			}
 			return c
 		}
+		formRequests := 0
 		mkReq := func(op *OSpec, raws map[string][]string, c creds, body *string) tcase {
 			path := sp.BasePath + op.Path
 			q := url.Values{}
@@ -836,6 +841,12 @@ func main() {
 					form = []kv{}
 				}
 				tc.Form = form
+				// every other form request travels as multipart/form-data (the operations consume both encodings)
+				formRequests++
+				tc.Multipart = formRequests%2 == 0
+				if tc.Multipart {
+					cov["request:multipart-form"]++
+				}
 			}
 			if body != nil {
 				tc.Body = body
@@ -949,7 +960,7 @@ func main() {
 			// C06: every combination of presented credentials on the valid request
 			for _, k := range []string{"", "k-alice", "bad"} {
 				for _, qk := range []string{"", "q-alice"} {
-					for _, au := range []string{"", "basic:alice:wonderland", "basic:alice:wrong", "oauth:t-read", "oauth:t-rw", "oauth:bad"} {
+					for _, au := range []string{"", "basic:alice:wonderland", "basic:alice:wrong", "oauth:t-read", "oauth:t-rw", "oauth:t-all", "oauth:bad"} {
 						c := creds{key: k, qkey: qk}
 						if strings.HasPrefix(au, "basic:") {
 							c.basic = au[6:]
